@@ -84,6 +84,25 @@ func genC41(seed uint64) *Plan {
 	}
 	p.Prop = "C41"
 	k := p.K
+	if x := p.Scenario; x == "consume" && r.Intn(100) < 50 {
+		// explicit partitions from exact offsets, some of them idle for the
+		// whole run, while leader epochs move without the leader moving and
+		// the client refreshes its metadata often
+		k["sel_mode"] = 2
+		k["idle_exact"] = 1
+		k["meta_max_ms"] = []int64{300, 500, 1000}[r.Intn(3)]
+		np := k["nparts"]
+		if np < 1 {
+			np = 1
+		}
+		for i, n := 0, 3+r.Intn(8); i < n; i++ {
+			ev := Event{AtMs: int64(200 + r.Intn(12000)), Kind: "bump_epoch", S: "idle", B: int64(r.Intn(int(np)))}
+			if r.Intn(100) < 30 {
+				ev.S, ev.A = "", 0
+			}
+			p.Events = append(p.Events, ev)
+		}
+	}
 	if k["yield"] == 0 {
 		k["yield"] = []int64{256, 1024, 4096}[r.Intn(3)]
 	}
